@@ -247,6 +247,7 @@ theorem C11_source_shape :
     Pms.Gen.HessTab.dudrsCall = "pair_interaction.caller(interaction_params)" ∧
     Pms.Gen.HessTab.pairMatrixCall = "self.pair_matrix(RJI[j], dudrs)" ∧
     Pms.Gen.HessTab.hessianInit = "np.zeros((self.ndim * nparticle, self.ndim * nparticle))" ∧
+    Pms.Gen.HessTab.prefactorInit = "np.zeros_like(self.epsilons, dtype=float)" ∧
     Pms.Gen.HessTab.eigCall = "evals, evecs = np.linalg.eigh(hessian_matrix)" ∧
     Pms.Gen.HessTab.prLoop =
       "i in range(evecs.shape[1]): PR[i] = participation_ratio(evecs[:, i].reshape(nparticle, self.ndim))" ∧
@@ -260,7 +261,7 @@ theorem C11_source_shape :
       ("shiftpotential", "shiftpotential")] ∧
     (∀ i j d : ℕ, Pms.Gen.HessTab.index_i_0 i j d 0 0 = i * d ∧ Pms.Gen.HessTab.index_j_0 i j d (i * d) 0 = j * d ∧
       Pms.Gen.HessTab.index_i_1 i j d (i * d) (j * d) = i * d + d ∧ Pms.Gen.HessTab.index_j_1 i j d (i * d) (j * d) = j * d + d) := by
-  refine ⟨by decide, by decide, by decide, by decide, by decide, by decide, by decide, by decide, by decide, by decide,
+  refine ⟨by decide, by decide, by decide, by decide, by decide, by decide, by decide, by decide, by decide, by decide, by decide,
     by decide, by decide, by decide, by decide, by decide, by decide, by decide, by decide, ?_⟩
   intro i j d
   exact ⟨rfl, rfl, rfl, rfl⟩
